@@ -81,7 +81,7 @@ def run(ctx, known, built):
         with open(vf, "wb") as f:
             f.write(HEADER)
             f.write(b"Definition ts : list string := [" + b";".join(_lit(n) for n in names) + b"].\n")
-            f.write(b"Definition cs : list (N * (case * fcase * etm)) := [\n" + b";\n".join(lines[bi:bi + RS]) + b"].\n")
+            f.write(b"Definition cs : list (N * (case * fcase * etm * scase * scase)) := [\n" + b";\n".join(lines[bi:bi + RS]) + b"].\n")
             f.write(b"Eval vm_compute in mism10 ts cs.\n")
         files.append(vf)
     if not built:
